@@ -18,7 +18,7 @@ func init() {
 	register(&Rule{
 		Prop: "C20",
 		Explanation: "A relation between two runs (queries that differ only in letter case get the same answer) becomes a one-run fact: NO case-sensitive operation ever sees the query's original letter case. Decided by an interprocedural may-taint analysis of the SSA form: (O-1) sources are the query parameters of every search entry point, of GetSuggestions, of the recovery searches and of the cache key function; taint flows through string operations, slices, cells, struct fields, containers, calls and closures; sanitisers are the case-folding functions (strings.ToLower/ToUpper, unicode.ToLower/ToUpper/SimpleFold) and the matcher's pattern argument (fuzzy.Find folds with equalFold — verified on the dependency's source); " +
-			"sinks are every case-sensitive use — map lookup/update with a tainted key, ==/!=/</> and switch on tainted strings or runes, strings.Contains/HasPrefix/HasSuffix/Index/Count/Compare/Replace with a tainted operand, unicode.IsUpper/IsLower/IsTitle, regular expressions whose pattern contains a cased letter, hashing/marshalling of tainted text; no tainted value may reach a sink; (O-3) the engine query at the CLI is ValidateQuery(strings.Join(args, \" \")), whose result passes the trim and whitespace-collapse steps (C14); (O-4) the cache key normalises the query only by ToLower and TrimSpace. Code points whose lower-casing and simple folding differ are excluded by the property.",
+			"sinks are every case-sensitive use — map lookup/update with a tainted key, ==/!=/</> and switch on tainted strings or runes, strings.Contains/HasPrefix/HasSuffix/Index/Count/Compare/Replace with a tainted operand, strings.Replacer tables that look for a cased letter, unicode.IsUpper/IsLower/IsTitle, regular expressions whose pattern contains a cased letter, hashing/marshalling of tainted text; no tainted value may reach a sink; (O-3) the engine query at the CLI is ValidateQuery(strings.Join(args, \" \")), whose result passes the trim and whitespace-collapse steps (C14); (O-4) the cache key normalises the query only by ToLower and TrimSpace. Code points whose lower-casing and simple folding differ are excluded by the property.",
 		NotDecided:  []string{"code points for which strings.ToLower and simple case folding disagree (excluded by the property)", "length effects of case mapping on the len(w) < 2 token filter (lengths are treated as case-independent)", "whitespace sensitivity of the fuzzy pattern for API callers that bypass validation (the property's cache clause speaks of case variants only)"},
 		Assumptions: []string{"github.com/sahilm/fuzzy compares pattern and data with simple case folding (equalFold; checked for presence in the dependency)", "strings.ToLower is idempotent and agrees with simple folding on the property's domain"},
 		Run:         runC20,
@@ -259,6 +259,15 @@ func runC20(c *Ctx) {
 							}
 						}
 					}
+				case n == "(*strings.Replacer).Replace" || n == "(*strings.Replacer).WriteString":
+					nSinks++
+					for _, a := range args[1:] {
+						if res.Tainted(a) {
+							if pats, ok := c20ReplacerPatterns(args[0]); !ok || letterInPattern(strings.Join(pats, "")) {
+								report(fn, in, "replacement-table", a)
+							}
+						}
+					}
 				case n == "crypto/sha256.Sum256" || strings.HasPrefix(n, "encoding/json.Marshal") || strings.HasPrefix(n, "crypto/md5."):
 					nSinks++
 					for _, a := range args {
@@ -349,6 +358,87 @@ func c20RegexpPattern(recv ssa.Value) (string, bool) {
 		}
 	}
 	return "", false
+}
+
+// c20ReplacerPatterns: the receiver is strings.NewReplacer(constants...)
+// (local or package-level); the texts it looks for (the even arguments).
+func c20ReplacerPatterns(recv ssa.Value) ([]string, bool) {
+	fromCall := func(call *ssa.Call) ([]string, bool) {
+		if ssau.CallName(call) != "strings.NewReplacer" || len(call.Common().Args) != 1 {
+			return nil, false
+		}
+		sl, ok := call.Common().Args[0].(*ssa.Slice)
+		if !ok {
+			if ssau.IsNilConst(call.Common().Args[0]) {
+				return nil, true
+			}
+			return nil, false
+		}
+		al, ok := sl.X.(*ssa.Alloc)
+		if !ok {
+			return nil, false
+		}
+		var pats []string
+		good := true
+		for _, ref := range *al.Referrers() {
+			ia, ok := ref.(*ssa.IndexAddr)
+			if !ok {
+				if ref != ssa.Instruction(sl) {
+					good = false
+				}
+				continue
+			}
+			idx, okI := ssau.ConstInt(ia.Index)
+			for _, r2 := range *ia.Referrers() {
+				st, ok := r2.(*ssa.Store)
+				if !ok || st.Addr != ssa.Value(ia) {
+					good = false
+					continue
+				}
+				str, ok := ssau.ConstString(st.Val)
+				if !ok {
+					good = false
+					continue
+				}
+				if !okI || idx%2 == 0 {
+					pats = append(pats, str)
+				}
+			}
+		}
+		return pats, good
+	}
+	switch x := recv.(type) {
+	case *ssa.Call:
+		return fromCall(x)
+	case *ssa.UnOp:
+		if g, ok := x.X.(*ssa.Global); ok {
+			var pats []string
+			n, good := 0, true
+			for _, mem := range g.Pkg.Members {
+				fn, ok := mem.(*ssa.Function)
+				if !ok {
+					continue
+				}
+				ssau.ForEachInstr(fn, true, func(in ssa.Instruction) {
+					if st, ok := in.(*ssa.Store); ok && st.Addr == ssa.Value(g) {
+						n++
+						mc, ok := st.Val.(*ssa.Call)
+						if !ok {
+							good = false
+							return
+						}
+						p, ok := fromCall(mc)
+						if !ok {
+							good = false
+						}
+						pats = append(pats, p...)
+					}
+				})
+			}
+			return pats, good && n > 0
+		}
+	}
+	return nil, false
 }
 
 func c20CLI(c *Ctx) {
